@@ -753,7 +753,7 @@ class World:
     def _entry_damaged(self, op, f):
         try:
             g = grammar(self.cfg['grammars'][op['g'] % len(self.cfg['grammars'])])
-            name = '%s-%s.pkl' % (g._hashed, hashlib.sha256(self.files[f].encode()).hexdigest())
+            name = '%s-%s.pkl' % (g._hashed, hashlib.sha256(self.files[f].encode('utf-8', 'surrogatepass')).hexdigest())
             n = self.fs.h_node(os.path.join(self.vdir(op.get('c', 0)), name))
             if n is None or n.is_dir:
                 return False
